@@ -43,9 +43,34 @@ def _expr_weight(ex, node, env, weight):
     return tot
 
 
+def _nonneg(v):
+    """The count cannot be negative by its form: every term has a non-negative coefficient once x // y is written as
+    (x - x % y) / y  (so that  m - k (m // k)  is recognised as  m % k); the atoms are counts (parameters, quotients, remainders)."""
+    try:
+        mp = {}
+        for a in v.all_atoms():
+            if a[0] == "fn" and a[1] == "floordiv":
+                x, y = anf.REG.get(a[2])
+                if y.is_const() and y.const_value() > 0:
+                    mp[a] = (x - anf.fn_("mod", x, y)) / y
+        for w in ([v] + ([anf.subst(v, mp)] if mp else [])):
+            if any(a[0] == "fn" and a[1] not in ("mod", "floordiv", "max", "min", "len", "int", "abs") for a in w.all_atoms()):
+                continue
+            den_ok = len(w.den) == 1 and all(len(m_) == 0 for m_ in w.den) and all(c_ > 0 for c_ in w.den.values())
+            if den_ok and all(c_ >= 0 for c_ in w.num.values()):
+                return True
+        return False
+    except Exception:
+        return False
+
+
 def _range_count(ex, it, env):
     if isinstance(it, ast.Call) and ast.unparse(it.func) == "range" and len(it.args) == 1:
-        return ex.need_r(ex.eval(it.args[0], env))
+        v = ex.need_r(ex.eval(it.args[0], env))
+        # range(E) runs max(E, 0) times: the algebra may use E only where E cannot be negative
+        if not _nonneg(v):
+            raise Unsupported(f"`{ast.unparse(it)}`: the count `{v}` may be negative (range then runs 0 times, not `{v}` times) - not decided")
+        return v
     return None
 
 
@@ -174,8 +199,15 @@ def _stmt(ex, st, a, weight):
                 zv = ex.eval(zt.left, dict(env))
                 if isinstance(zv, R):
                     zero_on = ("orelse", zv) if isinstance(zt.ops[0], ast.NotEq) else ("body", zv) if isinstance(zt.ops[0], ast.Eq) else None
+                    # `E > 0` for a count E that cannot be negative (a remainder, a quotient of counts): not taken means E == 0
+                    if zero_on is None and isinstance(zt.ops[0], ast.Gt) and _nonneg(zv):
+                        zero_on = ("orelse", zv)
             elif isinstance(zt, ast.Name) and isinstance(env.get(zt.id), R):
                 zero_on = ("orelse", env[zt.id])
+            elif isinstance(zt, ast.BinOp) and isinstance(zt.op, (ast.Mod, ast.FloorDiv)):
+                zv = ex.eval(zt, dict(env))            # `if m % k:` - the truth value of a count
+                if isinstance(zv, R):
+                    zero_on = ("orelse", zv)
         except Unsupported:
             zero_on = None
         out = []
